@@ -102,10 +102,24 @@ def task_graph() -> TaskGraph | None:
     return _TASK_GRAPH
 
 
+def _contains_lazy(x: Any) -> bool:
+    if isinstance(x, _LazyFunction):
+        return True
+    if isinstance(x, dict):
+        return any(_contains_lazy(v) for v in x.values())
+    if isinstance(x, (tuple, list, set)):
+        return any(_contains_lazy(v) for v in x)
+    return False
+
+
 def evaluate_lazy(x: Any) -> Any:
     """Evaluate a lazy object."""
     if isinstance(x, _LazyFunction):
         return x.evaluate()
+    if not _contains_lazy(x):
+        # Nothing to evaluate: hand the object over as it is. Rebuilding it would turn
+        # a namedtuple into a tuple, a defaultdict into a dict, etc.
+        return x
     if isinstance(x, dict):
         return {k: evaluate_lazy(v) for k, v in x.items()}
     if isinstance(x, tuple):
